@@ -111,6 +111,7 @@ class Sched(object):
         self.aborting = False
         self.finished = threading.Event()
         self.log = []  # harness-level observations appended by thread bodies
+        self.line_log = []  # (thread id, function, line) of every traced line event
 
     # -- construction
     def spawn(self, fn, name=None):
@@ -132,6 +133,8 @@ class Sched(object):
 
     def _local(self, frame, event, arg):
         if event == "line":
+            me = self.me()
+            self.line_log.append((me.tid if me is not None else -1, frame.f_code.co_name, frame.f_lineno))
             self.point(("line", frame.f_code.co_name, frame.f_lineno))
         return self._local
 
